@@ -17,7 +17,9 @@ VARIABLE i
 Clauses(r) ==
   << <<"C18:FrozenImmutable", r.kind # "probe" \/ r.post = r.pre>>,
      <<"C18:NotRejected", r.kind # "probe" \/ ~r.twinChanged \/ r.res = "liberr">>,
-     <<"C18:is_frozen", r.kind = "copy" \/ r.post.frozen>>,
+     \* "plain": a network that was never frozen (or the copy of a frozen one) reports so and is editable
+     <<"C18:is_frozen", r.kind = "copy" \/ (r.kind = "plain" /\ ~r.post.frozen /\ ~r.pre.frozen /\ r.res = "ok")
+                        \/ (r.kind \notin {"copy", "plain"} /\ r.post.frozen)>>,
      <<"C18:CopyOfFrozen", r.kind # "copy" \/ (CopyEqual(r.pre, r.post) /\ r.twinChanged)>> >>
 
 Verdict(r) ==
